@@ -35,13 +35,20 @@ spec fn line_bound(new: &str) -> int {
     if new.len() == 0 { 1 } else { new.len() as int }
 }
 
+/// every range ends at or before column `b` (same definition as in groups/diffranges.rs; opaque
+/// here: no proof of this group looks inside, and the quantifier stays out of the solver's way)
+#[verifier::opaque]
+spec fn ranges_within(r: Seq<Range<usize>>, b: int) -> bool {
+    forall|i: int| 0 <= i < r.len() ==> (#[trigger] r[i]).end <= b
+}
+
 /// Contract of D-d `line_diff`: exactly the postcondition PROVED in group diffranges (for any
 /// sequence of diff ops); assumed here because single-file Verus cannot share it. Keep in sync.
 #[verifier::external_body]
 fn line_diff(old: &str, new: &str) -> (r: Vec<Range<usize>>)
     ensures
         ranges_wf(r@), // [Dd.post.ranges_wf]
-        forall|i: int| 0 <= i < r@.len() ==> (#[trigger] r@[i]).end <= line_bound(new), // [Dd.post.ranges_within_line]
+        ranges_within(r@, line_bound(new)), // [Dd.post.ranges_within_line]
 { unimplemented!() }
 
 //@unit id=Db.fold file=src/diff_parser.rs fn=fold_deleted_lines
